@@ -210,6 +210,11 @@ func TestSyncer(t *testing.T) {
 						cancel()
 					case "advance":
 						time.Sleep(time.Duration(ev.H) * time.Hour)
+					case "tailFail":
+						// the operator moves SyncFromHeight to a height the node does not have, and the peers do not serve
+						// single headers any more: the tail renewal of the next Head() call fails
+						n.sy.Params.SyncFromHeight = uint64(ev.H)
+						n.get.byHFn = func(gc gcall) (*vh.Header, error) { return nil, errors.New("scripted: peer disconnected") }
 					case "gossipAsync": // a delivery that may block inside bifurcation (gated getter) or on the handler's lock
 						hdr := chain.At(uint64(ev.H))
 						ch := make(chan asyncRes, 1)
